@@ -194,7 +194,7 @@ pub fn c01(env: &Env) -> i32 {
         env,
         crate::runloop::Oracle::Agreement,
         "after every operation and at the end, per block number every payload any node ever handed to storage or stores is the same, and within one incarnation a node hands blocks over in contiguous increasing order",
-        env.tier.pick(96, 1_600),
+        env.tier.pick(96, 800),
     ));
     env.finish(
         "exploration",
@@ -418,7 +418,7 @@ pub fn c03(env: &Env) -> i32 {
         env,
         crate::runloop::Oracle::Votes,
         "over everything each key ever put on the wire (all incarnations, in emission order): no two different commit votes per view, no commit vote at or below an earlier timeout vote, vote views never decrease; and every vote taken from a node's outbound channel is already recorded by that node's durable replica state (crashes here are sampled by the generator, not enumerated)",
-        env.tier.pick(96, 1_600),
+        env.tier.pick(96, 800),
     ));
     env.finish(
         "fault_enumeration",
@@ -744,7 +744,7 @@ pub fn c06(env: &Env) -> i32 {
         env,
         crate::runloop::Oracle::Progress,
         "after the heal every node that runs makes a new block durable (beyond the highest block any node had at heal time) within 12 view timeouts of virtual time plus one view timeout per view whose leader is silent; a run loop that ends with an error or panics is a failure",
-        env.tier.pick(240, 2_400),
+        env.tier.pick(240, 1_200),
     ));
     env.finish(
         "exploration",
